@@ -171,3 +171,31 @@ func H_C10a() {
 	}
 	vCover("end")
 }
+
+// ---- exports for harnesses in other packages (C07) ----
+
+type VEntry struct {
+	Addr    common.Address
+	Data    state.ApprovedIdentity
+	Present bool
+}
+
+// VNewCache builds a real ValidatorsCache through its own Load from the given identity-state content
+// (ascending address order). Needs override set c10.
+func VNewCache(entries []VEntry, god common.Address) *ValidatorsCache {
+	vC10Content = nil
+	for _, e := range entries {
+		vC10Content = append(vC10Content, vEntry{addr: e.Addr, data: e.Data, present: e.Present})
+	}
+	v := NewValidatorsCache(state.VNewIdentityStateDB(), god)
+	v.Load()
+	return v
+}
+
+func VAddrN(i byte) common.Address { return vA(i) }
+
+// VSymEntry: symbolic entry satisfying the stored-entry invariant (see vEntryFor).
+func VSymEntry(tag string, addr, pool common.Address, mayDelegate bool) VEntry {
+	e := vEntryFor(tag, addr, pool, mayDelegate)
+	return VEntry{Addr: e.addr, Data: e.data, Present: e.present}
+}
